@@ -1,3 +1,9 @@
 // Kani contracts for /repo/src/compiler/value/kind.rs (child module via cfg(kani) hook).
 #![allow(warnings)]
 use super::*;
+
+#[cfg(test)]
+mod playback {
+    use super::*;
+    include!("/verif/.cache/playback/kind_default.rs");
+}
